@@ -184,6 +184,7 @@ Section Iterate.
   (* daglish.is_internable: leaves, and tuples all of whose elements are internable *)
   Fixpoint internable (fuel : nat) (r : ref) : bool :=
     match r with
+    | RA (ASym _) => false          (* functions and classes are memoizable, hence not internable *)
     | RA _ => true
     | RP i =>
         match fuel with
